@@ -19,8 +19,15 @@ import numpy as np
 from core import Driver, Failure, nl
 
 ID = "C04"
-PROOF_MODULES = ["PyribsProofs.C04", "PyribsProofs.C04b"]
+from genf import translate  # noqa: E402,F401  (regenerates lean/PyribsGen/{Formulas,Control}.lean from the tree under check)
+PROOF_MODULES = ["PyribsProofs.C04", "PyribsProofs.C04b", "PyribsGen.Control", "PyribsProofs.GenFLoop"]
 THEOREMS = [
+    "Pyribs.GenFProofs.sched_tell_loop_from_source",
+    "Pyribs.GenFProofs.sched_tell_init_from_source",
+    "Pyribs.GenFProofs.sched_tell_dqd_loop_from_source",
+    "Pyribs.GenFProofs.sched_tell_dqd_init_from_source",
+    "Pyribs.GenFProofs.slices_eq_generated",
+    "Pyribs.GenFProofs.bandit_tell_loop_from_source",
     "Pyribs.C04.protocol",
     "Pyribs.C04.protocol_unchanged",
     "Pyribs.C04.rejected_untouched",
